@@ -331,6 +331,12 @@ def run(index, rep, tier):
         from . import c09
         rep.floor("R19.10", "self[taxon] reads in the matrix classes", 5, c09.matrix_read_rule(index, rep, "R19.10", ["dendropy.datamodel.charmatrixmodel"]))
 
+    # ---- R19.11 the rows named may be given as any iterable
+    with rep.section("R19.11"):
+        rep.rule("R19.11", "the rows an operation names may be given as any iterable: remove / discard / keep sequences walk their `taxa` argument at most once or materialise it first (a generator must name the same rows as the list of its items)")
+        fam = [f for f in index.functions_in_module("dendropy.datamodel.charmatrixmodel") if f.cls is not None and f.name in ("remove_sequences", "discard_sequences", "keep_sequences")]
+        rep.floor("R19.11", "row-selection arguments", 3, one_pass_iterable_rule(index, rep, "R19.11", fam, ("taxa",)))
+
 
 def _r19_3(rep, fi, seeds):
     t = tainted_names(fi, seeds)
